@@ -440,8 +440,8 @@ type Set struct {
 type SyncCollectionQuery struct {
 	XMLName   xml.Name `xml:"DAV: sync-collection"`
 	SyncToken string   `xml:"sync-token"`
-	Limit     *Limit   `xml:"limit,omitempty"`
 	SyncLevel string   `xml:"sync-level"`
+	Limit     *Limit   `xml:"limit,omitempty"`
 	Prop      *Prop    `xml:"prop"`
 }
 
